@@ -18,11 +18,12 @@
                  backlog[d] shells that dialled d's listener and were not registered yet.
                  (DbOpen/DbFailed and Serving of the design are one state "serving": nothing visible
                   happens between the two hooks; Exiting/RemovedSock/Closed = exiting/removed/dbclosed.)
-   Shell s       spc[s]:  start -[FirstDial]-> spawning (lstat: missing) | refused | dialled
+   Shell s       spc[s]:  start -[FirstLstat]-> spawning (missing) | probing -[FirstDial]-> refused | dialled
+                                                                  | failed (the file vanished since lstat)
                           dialled -[Accept by the daemon: Version answered]-> connected
                                   -[the daemon closes its listener / crashes]-> failed
                           refused -[RemoveStale]-> spawning | failed (remove error)
-                          spawning -[Spawn]-> waiting  -[RetryDial, <= K times]-> waiting | dialled
+                          spawning -[Spawn]-> waiting  -[RetryLstat; RetryDial, <= K times]-> waiting | dialled | failed
                           waiting -[GiveUp]-> failed ; connected -[Exit]-> exited
    Steps that are os.Remove(path) -- RemoveStale, RemoveSock, and the unlink-on-close inside Go's
    UnixListener.Close (CloseListener) -- remove WHATEVER inode the path names at that moment.
@@ -76,17 +77,26 @@ Lbl(a, s, d, r, b) ==
                              dpc |-> [i \in Daemons |-> dpc'[i]], hasdb |-> [i \in Daemons |-> hasdb'[i]]])
           ELSE hist
 
-\* ---- shells
-Outcome == IF sock = 0 THEN "missing" ELSE IF sock \in listening THEN "queued" ELSE "refused"
+\* ---- shells.  detectDaemon is os.Lstat followed by a dial: two steps, the path may change in between
+LstatOutcome == IF sock = 0 THEN "missing" ELSE "present"
+DialOutcome == IF sock = 0 THEN "gone" ELSE IF sock \in listening THEN "queued" ELSE "refused"
 
-FirstDial(s) ==
+FirstLstat(s) ==
   /\ spc[s] = "start"
-  /\ CASE Outcome = "missing" -> spc' = [spc EXCEPT ![s] = "spawning"] /\ UNCHANGED <<sconn, backlog>>
-       [] Outcome = "refused" -> spc' = [spc EXCEPT ![s] = "refused"] /\ UNCHANGED <<sconn, backlog>>
+  /\ spc' = [spc EXCEPT ![s] = IF sock = 0 THEN "spawning" ELSE "probing"]
+  /\ UNCHANGED <<init, sock, listening, dbLock, dpc, hasdb, conns, closedc, backlog, sconn, tries, nsp, crashes, bad>>
+  /\ Lbl("Lstat", s, 0, LstatOutcome, "")
+
+\* connect: ENOENT (the file vanished since lstat: "unexpected RPC error", the activation fails),
+\* ECONNREFUSED (nobody listens on the inode the path names now), or queued on a listener
+FirstDial(s) ==
+  /\ spc[s] = "probing"
+  /\ CASE DialOutcome = "gone"    -> spc' = [spc EXCEPT ![s] = "failed"] /\ UNCHANGED <<sconn, backlog>>
+       [] DialOutcome = "refused" -> spc' = [spc EXCEPT ![s] = "refused"] /\ UNCHANGED <<sconn, backlog>>
        [] OTHER -> /\ spc' = [spc EXCEPT ![s] = "dialled"] /\ sconn' = [sconn EXCEPT ![s] = sock]
                    /\ backlog' = [backlog EXCEPT ![sock] = @ \cup {s}]
   /\ UNCHANGED <<init, sock, listening, dbLock, dpc, hasdb, conns, closedc, tries, nsp, crashes, bad>>
-  /\ Lbl("Dial", s, IF Outcome = "queued" THEN sock ELSE 0, Outcome, "")
+  /\ Lbl("Dial", s, IF DialOutcome = "queued" THEN sock ELSE 0, DialOutcome, "")
 
 RemoveStale(s) ==
   /\ spc[s] = "refused"
@@ -106,13 +116,22 @@ Spawn(s) ==
   /\ UNCHANGED <<init, sock, listening, dbLock, hasdb, conns, closedc, backlog, sconn, crashes, bad>>
   /\ Lbl("Spawn", s, IF nsp < ND THEN nsp + 1 ELSE 0, IF nsp < ND THEN "" ELSE "outofids", "")
 
-RetryDial(s) ==
+RetryLstat(s) ==
   /\ spc[s] = "waiting" /\ tries[s] < K
-  /\ CASE Outcome = "queued" -> /\ spc' = [spc EXCEPT ![s] = "dialled"] /\ sconn' = [sconn EXCEPT ![s] = sock]
-                                /\ backlog' = [backlog EXCEPT ![sock] = @ \cup {s}] /\ UNCHANGED tries
-       [] OTHER -> tries' = [tries EXCEPT ![s] = @ + 1] /\ UNCHANGED <<spc, sconn, backlog>>
+  /\ IF sock = 0 THEN tries' = [tries EXCEPT ![s] = @ + 1] /\ UNCHANGED spc
+     ELSE spc' = [spc EXCEPT ![s] = "reprobing"] /\ UNCHANGED tries
+  /\ UNCHANGED <<init, sock, listening, dbLock, dpc, hasdb, conns, closedc, backlog, sconn, nsp, crashes, bad>>
+  /\ Lbl("RetryLstat", s, 0, LstatOutcome, "")
+
+RetryDial(s) ==
+  /\ spc[s] = "reprobing"
+  /\ CASE DialOutcome = "gone"    -> spc' = [spc EXCEPT ![s] = "failed"] /\ UNCHANGED <<sconn, backlog, tries>>
+       [] DialOutcome = "refused" -> /\ spc' = [spc EXCEPT ![s] = "waiting"] /\ tries' = [tries EXCEPT ![s] = @ + 1]
+                                     /\ UNCHANGED <<sconn, backlog>>
+       [] OTHER -> /\ spc' = [spc EXCEPT ![s] = "dialled"] /\ sconn' = [sconn EXCEPT ![s] = sock]
+                   /\ backlog' = [backlog EXCEPT ![sock] = @ \cup {s}] /\ UNCHANGED tries
   /\ UNCHANGED <<init, sock, listening, dbLock, dpc, hasdb, conns, closedc, nsp, crashes, bad>>
-  /\ Lbl("RetryDial", s, IF Outcome = "queued" THEN sock ELSE 0, Outcome, "")
+  /\ Lbl("RetryDial", s, IF DialOutcome = "queued" THEN sock ELSE 0, DialOutcome, "")
 
 GiveUp(s) ==
   /\ spc[s] = "waiting" /\ tries[s] = K
@@ -201,12 +220,13 @@ Crash(d) ==
   /\ UNCHANGED <<init, sock, hasdb, conns, closedc, sconn, tries, nsp, bad>>
   /\ Lbl("Crash", 0, d, "", "")
 
-ShellStep(s) == FirstDial(s) \/ RemoveStale(s) \/ Spawn(s) \/ RetryDial(s) \/ GiveUp(s)
+ShellStep(s) == FirstLstat(s) \/ FirstDial(s) \/ RemoveStale(s) \/ Spawn(s) \/ RetryLstat(s) \/ RetryDial(s) \/ GiveUp(s)
 DaemonStep(d) == Listen(d) \/ OpenDb(d) \/ RemoveSock(d) \/ CloseDb(d) \/ CloseListener(d)
                  \/ \E s \in Shells : Accept(d, s) \/ ConnDone(d, s)
 \* steps the real daemon takes by itself as soon as they are possible (no hook gates them)
-Urgent == \E d \in Daemons, s \in Shells : Accept(d, s) \/ ConnDone(d, s)
-Gated == \/ \E s \in Shells : ShellStep(s) \/ Exit(s)
+Urgent == \/ \E d \in Daemons, s \in Shells : Accept(d, s) \/ ConnDone(d, s)
+          \/ \E s \in Shells : FirstDial(s) \/ RetryDial(s)      \* no hook between lstat and the dial
+Gated == \/ \E s \in Shells : FirstLstat(s) \/ RemoveStale(s) \/ Spawn(s) \/ RetryLstat(s) \/ GiveUp(s) \/ Exit(s)
          \/ \E d \in Daemons : Listen(d) \/ OpenDb(d) \/ RemoveSock(d) \/ CloseDb(d) \/ CloseListener(d)
 Next == (\E s \in Shells : ShellStep(s) \/ Exit(s)) \/ (\E d \in Daemons : DaemonStep(d) \/ Crash(d))
 \* the interleavings a scheduler holding every actor at its hook can produce
@@ -217,7 +237,7 @@ Final == {"connected", "failed", "exited", "outofids"}
 TypeOK ==
   /\ sock \in 0..ND /\ listening \subseteq Daemons /\ dbLock \in 0..ND
   /\ \A d \in Daemons : dpc[d] \in {"none", "spawned", "listening", "serving", "exiting", "removed", "dbclosed", "dead", "crashed"}
-  /\ \A s \in Shells : spc[s] \in {"start", "refused", "spawning", "waiting", "dialled"} \cup Final
+  /\ \A s \in Shells : spc[s] \in {"start", "probing", "refused", "spawning", "waiting", "reprobing", "dialled"} \cup Final
   /\ \A d \in Daemons : closedc[d] \subseteq conns[d] /\ (hasdb[d] /\ Alive(d) /\ dpc[d] # "dbclosed" => dbLock = d)
 ConnectedIsLive ==
   \A s \in Shells : spc[s] = "connected" =>
